@@ -288,7 +288,7 @@ def run(ctx, histories, wire_schema):
     _t0 = _t.time()
     answers = ctx.driver.ask(reqs)
     ctx.extra["textT_driver_seconds"] = round(_t.time() - _t0, 1)
-    n_wf = n_desc = n_shape = n_shape_wf = n_canon = n_pre = n_num = 0
+    n_wf = n_desc = n_shape = n_shape_wf = n_canon = n_pre = n_num = n_off = n_off_wf = 0
     for (src, o, real), a in zip(meta, answers):
         ctx.count()
         ctx.stat("textT")
@@ -300,6 +300,22 @@ def run(ctx, histories, wire_schema):
         if not a.get("same"):
             ctx.fail("corr:printT:first-model", "the two models of the printer (printSchemaT / printSchema) differ", detail,
                      kind="correspondence")
+        if not o["include_descriptions"]:
+            # `print_schema_text_parses_nodesc` evaluated: descriptions off = the description-free schema, descriptions on
+            n_off += 1
+            if a.get("wfStrip"):
+                n_off_wf += 1
+                ctx.nontrivial(("textT-nodesc", real))
+                if not a.get("parsesStrip"):
+                    ctx.fail("corr:printT:textParsesNoDesc", "printTextWF holds of the description-free schema but the model's lexer+parser "
+                             "do not return the tree of its printed document for the text printed with descriptions off "
+                             "(print_schema_text_parses_nodesc evaluated)", detail, kind="correspondence")
+                try:
+                    parse(real, allow_type_system=True)
+                except Exception as e:  # noqa
+                    ctx.fail("text-unparsable:%s:printTextWF-nodesc" % type(e).__name__,
+                             "printTextWF holds of the description-free schema but the real parser rejects the text printed with "
+                             "include_descriptions=False", detail)
         if o["include_descriptions"]:
             n_desc += 1
             shape = isinstance(src, str) and src.startswith("description-shapes")
@@ -331,6 +347,7 @@ def run(ctx, histories, wire_schema):
                                  detail, kind="correspondence")
                 else:
                     ctx.stat("textT-printer-f-differs-from-python-repr")
+    ctx.extra["nodesc_evaluated"] = "%d of %d schemas printed with include_descriptions=False satisfy printTextWF once stripped" % (n_off_wf, n_off)
     ctx.extra["every_preimage_evaluated"] = ("%d of %d printTextWF schemas have the printer's f = repr(float(v)) on every printed default "
                                              "(CanonDoc); astToDoc of the parsed tree builds the same schema in %d of them (%d with numerals)"
                                              % (n_canon, n_wf, n_pre, n_num))
